@@ -1,6 +1,6 @@
 """C10 — reverse-complementing a motif mirrors its scores on the opposite strand."""
 from lm.db import short
-from lm import tables, expr as X
+from lm import tables, expr as X, guards as G
 from lm.match import norm, m
 from . import common
 
@@ -206,6 +206,29 @@ def _rc_result(db, ctx, f0, f, via, newv, direction, cells, cover):
             def is_self_meta(a):
                 return (m(('fld', ('p', 1), '$f'), a) is not None) or (a[0] == 'call' and a[1].endswith('clone') and m(('fld', ('p', 1), '$f'), a[2][0]) is not None)
             meta_ok = has_new and all(is_self_meta(a) for a in others)
+    if meta_ok:
+        # every other way the function produces its result (an early `return self.clone()`) must be confined to the empty matrix: for one
+        # row the columns still have to be complemented
+        R0 = X.Rec(f0)
+        for d in f0.defs().get(0, []):
+            if d[1] == 'term' and d[2] is ret[0]:
+                continue
+            bi = d[0]
+            val = norm(R0.call(d[2])) if d[1] == 'term' else norm(R0.rvalue(d[2]))
+            is_copy = val[0] == 'call' and val[1].endswith('::clone') and X.strip_refs(val[2][0]) == ('p', 1)
+            rels = G.relations(f0, R0, bi)
+            def is_rows(e):
+                e = norm(e)
+                return e[0] == 'call' and e[1].rsplit('::', 1)[-1] in ('rows', 'len') and \
+                    X.strip_refs(e[2][0]) in (('p', 1), ('fld', ('p', 1), 'data'))
+            empty = G.holds(rels, 'eq', is_rows, G.is_const(0)) or G.holds(rels, 'lt', is_rows, G.is_const(1)) or \
+                G.holds(rels, 'le', is_rows, G.is_const(0)) or \
+                any(r[0] == 'true' and norm(r[1])[0] == 'call' and norm(r[1])[1].endswith('is_empty') and
+                    X.strip_refs(norm(r[1])[2][0]) in (('p', 1), ('fld', ('p', 1), 'data')) for r in rels)
+            if not (is_copy and empty):
+                ctx.fail('R10.2', f0, 'early result', 'the function also returns ' + X.show(val, 100) + ' on a path that is not confined to the empty '
+                         'matrix: a matrix with rows keeps its columns uncomplemented (or its rows unreversed) there', span=f0.blocks[bi].get('span'))
+                return None
     if not meta_ok:
         ctx.fail('R10.2', f0, 'result construction', f'result is not built from the new matrix and self\'s unchanged metadata: {X.show(shown) if shown else None}')
         return None
